@@ -62,6 +62,8 @@ pub trait CoordFloat: CoordNum + core::ops::Neg<Output = Self> {
     fn max(self, other: Self) -> (r: Self) ensures r.val() == (if self.val() >= other.val() { self.val() } else { other.val() });
     fn min(self, other: Self) -> (r: Self) ensures r.val() == (if self.val() <= other.val() { self.val() } else { other.val() });
     fn abs(self) -> (r: Self) ensures r.val() == (if self.val() >= 0 { self.val() } else { -self.val() });
+    /// num_traits::NumCast::from (ASSUMED: converting a literal into a float scalar succeeds; its value is not used)
+    fn from<N>(n: N) -> (r: Option<Self>) ensures r is Some;
     fn to_radians(self) -> Self;
     fn sin_cos(self) -> (Self, Self);
     fn tan(self) -> Self;
